@@ -148,7 +148,8 @@ def run_case(case):
     # candidate for the exe() fallback: cmdline()[0]
     cand = exp_cmdline[0] if exp_cmdline else None
     cand_ok = False
-    if cand is not None and cand.startswith(ROOT + "/") and "\x00" not in cand:
+    if cand is not None and cand.startswith(ROOT + "/") and "\x00" not in cand \
+            and not cand.endswith("/"):
         try:
             cand.encode("utf-8")
             encodable = True
